@@ -1041,6 +1041,15 @@ func (vc *FnVC) noteCallTargets(ci ssa.CallInstruction, inLoop func(ssa.Value) b
 	if vc.isNoEffect(name) || (vc.prog != nil && vc.prog.isPureObserver(name)) {
 		return
 	}
+	// library models that only read their arguments
+	for _, ro := range []string{"encoding/binary.bigEndian).Uint", "encoding/binary.littleEndian).Uint", "math/bits.", "bytes.Count", "go-ethereum/crypto.Keccak256", "common/math.Safe", "(*math/big.Int).Cmp", "(*math/big.Int).Sign", "(*math/big.Int).BitLen", "(*math/big.Int).IsUint64", "(*math/big.Int).Uint64", "uint256.Int).Cmp", "uint256.Int).IsZero", "uint256.Int).Lt", "uint256.Int).Gt", "uint256.Int).Eq", "uint256.Int).IsUint64", "uint256.Int).Uint64", "uint256.Int).Sign", "uint256.Int).BitLen"} {
+		if strings.Contains(name, ro) {
+			return
+		}
+	}
+	if vc.prog != nil && vc.prog.isReadonlyArgs(name) && (callee == nil || callee.Signature.Recv() == nil) {
+		return
+	}
 	if callee != nil && vc.libFrameKnown(callee, c, inLoop, note) {
 		return
 	}
